@@ -97,6 +97,22 @@ PROPS = {
     },
 }
 
+PROPS['C07'] = {
+    'units': ['unify'],
+    'functions': [],
+    'oracles': {'*': 'c07_sym'},
+    'bounded': [('c07_sym', 'supplementary to the proof: A = B and B = A on the real unify - same outcome, and every variable resolves to the same value up to a consistent renaming of unbound variables '
+                            '(22 terms pairwise under 7 prior substitutions, including `$_`, which the proof excludes; occurs-check pairs skipped)')],
+    'not_covered': [
+        'PROVED: lemma_unify_symmetric (spec/mgu.rs) over the clauses #mgu, #th_sound and #keeps that the verbatim unify is proved against: for clean terms (no `$_`, no function term, no NaN) and any clean prior substitution, '
+        'if a finite unifier respecting the prior bindings exists both orders succeed; if one order succeeds with a result that has a solution at all, the other order succeeds; and when both succeed the two results have exactly the same '
+        'set of solutions (every variable gets the same value under every instance of either result - the semantic form of "equal up to renaming of unbound variables" for two most general unifiers)',
+        'not covered: pairs for which one order succeeds with bindings that have no finite solution (occurs-check situations, e.g. $X = f($X)); pairs containing `$_` (bounded oracle only)',
+        "not covered: 'head/goal unification' goes through the solver's call of unify (Rc<RefCell> node graph, outside reach); the clause covers every call of unify, whichever side a list pattern or the empty list is on",
+        'the relation between "same set of solutions" and a syntactic renaming of unbound variables is the standard theorem about most general unifiers; it is not machine-checked here',
+    ],
+}
+
 PROPS['C10'] = {
     'units': ['rename', 'lists'],
     'functions': ['unifiable.rs::Unifiable::recreate_variables', 'unifiable.rs::recreate_vars_terms', 'unifiable.rs::recreate_vars_goals',
